@@ -1142,11 +1142,13 @@ static void walk_ports_recurse0(const Port& p, char* name_buffer,
         assert(isdigit(*read_head));
         for(;isdigit(*read_head); ++read_head) {}
 
-        if(*read_head == '/') { ++read_head; }
+        //the '/' behind the index is part of the name: a#2/b has one, a#2b has none
+        const bool slash = *read_head == '/';
+        if(slash) { ++read_head; }
         if(ranges)
         {
             assert(write_space > 32);
-            int written = snprintf(write_head,32,"[0,%d]/", max-1);
+            int written = snprintf(write_head,32,slash ? "[0,%d]/" : "[0,%d]", max-1);
             //Recurse
             walk_ports_recurse0(p, name_buffer, buffer_size, base, data, walker,
                                 runtime, old_end, write_head + written,
@@ -1155,7 +1157,7 @@ static void walk_ports_recurse0(const Port& p, char* name_buffer,
         else for(unsigned i=0; i<max; ++i)
         {
             assert(write_space > 32);
-            int written = snprintf(write_head,32,"%d/",i);
+            int written = snprintf(write_head,32,slash ? "%d/" : "%d",i);
             //Recurse
             walk_ports_recurse0(p, name_buffer, buffer_size, base, data, walker,
                                 runtime, old_end, write_head + written,
